@@ -23,6 +23,7 @@ type verifDump struct {
 	Name    string            `json:"name"`
 	Kind    string            `json:"kind"`
 	Program []string          `json:"program,omitempty"`
+	Ops     []verifOp         `json:"ops,omitempty"`
 	Ins     []jit.VerifIns    `json:"ins"`
 	Consts  map[string]int64  `json:"consts"`
 	Mem     map[string]string `json:"mem"`
@@ -115,6 +116,23 @@ type verifS1 struct {
 	B bool
 }
 
+// verifOp is the structured form of one program instruction (what the token monitor of the
+// whole-program checks needs: the character an op compares, its jump target(s)).
+type verifOp struct {
+	Op string `json:"op"`
+	B  int    `json:"b"`           // character operand
+	I  int    `json:"i"`           // integer operand / jump target
+	S  []int  `json:"s,omitempty"` // switch targets
+}
+
+func verifOpOf(ins _Instr) verifOp {
+	o := verifOp{Op: ins.op().String(), B: int(ins.vb()), I: ins.vi()}
+	if ins.op() == _OP_switch {
+		o.S = append(o.S, ins.vs()...)
+	}
+	return o
+}
+
 func TestVerifDump(t *testing.T) {
 	if os.Getenv("VERIF_DUMP_DIR") == "" {
 		t.Skip("no VERIF_DUMP_DIR")
@@ -135,6 +153,7 @@ func TestVerifDump(t *testing.T) {
 		d := verifDump{Name: "dec_" + name, Kind: "typed", Consts: map[string]int64{}}
 		for _, ins := range prog {
 			d.Program = append(d.Program, ins.disassemble())
+			d.Ops = append(d.Ops, verifOpOf(ins))
 		}
 		d.Ins = as.BaseAssembler.VerifDump(as.compile)
 		verifWrite(d)
